@@ -48,10 +48,13 @@ CHECKS = {
    text="MPTTxn.tla (block trie + child tries with open/op/merge/reject/discard) is model-checked by TLC for isolation, no-trace and "
         "no-lost-update; TLC emits every behaviour of depth 4 (quick) / 5 (thorough) plus -simulate samples; these and seeded random "
         "multi-transaction blocks run on real tries over layered stores; after every event TLC compares every live trie's root, "
-        "content, pending new/dead node sets with the specification (tries not targeted by the event must be exactly as before).",
+        "content, pending new/dead node sets with the specification (tries not targeted by the event must be exactly as before).  "
+        "The layered node stores underneath (read-through, write-to-current, layer isolation, MergeState, rebase) are specified in "
+        "NodeDB.tla, model-checked (one design mutant refuted) and bound by trace validation of real MemoryNodeDB/PNodeDB/LevelNodeDB "
+        "objects (NodeDBTrace.tla).",
    note="children left open across a change of the parent's root are stale: errors accepted, wrong data not; observation alternates "
         "between API reads and store-only reads so that node caches are not warmed by the observer",
-   technique="TLA+ spec (MPTTxn.tla) + TLC design check + TLC-generated behaviours replayed into the Go code + TLC trace validation (MPTRounds.tla)"),
+   technique="TLA+ specs (MPTTxn.tla, NodeDB.tla) + TLC design checks + TLC-generated behaviours replayed into the Go code + TLC trace validation (MPTRounds.tla, NodeDBTrace.tla)"),
  "C04": dict(level="model_checking", ref="DESIGN.md §5 C04",
    text="MPTPersist.tla (rounds, atomic save batch, dead-node record, prune, crash at every storage operation, re-execution) is "
         "model-checked exhaustively (Safe/Complete/DeadNotLive, two design mutants refuted); real multi-round histories on the "
